@@ -48,6 +48,15 @@ def run(tier, deadline):
                 j = json.loads(ln)
                 if j["t"] == "viol": viol.setdefault(j["sig"], [0, "cat " + j["case"]])[0] += j["n"]
                 elif j["t"] == "stat": cat_evals[0] += j["evaluations"]
+    # ---- pass 1d: a call that fails in one thread leaves nothing behind that blocks another (the C library's stream lock is state no snapshot of the library's data shows)
+    from . import clientmatrix
+    lock_lines = 0
+    for cc, opt in ((("gcc", "O2"),) if tier == "quick" else (("gcc", "O0"), ("gcc", "O2"), ("clang", "O2"))):
+        out, err = clientmatrix.build_run(os.path.join(clientmatrix.CDIR, "lockclient.c"), cc, opt)
+        if out is None: internal.append(f"lockclient {cc}-{opt}: {err}"); continue
+        lock_lines += sum(1 for l in out.splitlines() if l.startswith("S "))
+        for l in clientmatrix.wrong_lines(out):
+            w = l.split(); viol.setdefault(f"C12|client|{w[1]}|{cc}-{opt}", [0, f"client lockclient {cc} {opt}"])[0] += 1
     # ---- pass 1c: no store touches a byte outside the addressed range (hardware write watchpoints on the neighbouring bytes): an invented store -
     # a word read, modified and written back - would undo what another thread writes to bytes it owns in the same word
     ip = os.path.join(ROOT, "build", "c18", "inplace"); os.makedirs(os.path.dirname(ip), exist_ok=True)
@@ -115,7 +124,7 @@ def run(tier, deadline):
            "op_footprints": [{k: f[k] for k in ("op", "v", "accesses", "writes", "first_written", "changed_bytes")} for f in fp if f["accesses"]],
            "catalogue_calls_checked_for_static_footprint": cat_evals[0], "evaluations": cat_evals[0] + stats["schedules"],
            "distinct_nontrivial": stats["states"],
-           "rule": "watchpoint pass: every erase/fill entry point x n 1..72 x start offset 0..15 with hardware write watchpoints on the byte in front of and the byte behind the addressed range (a store that writes a neighbouring byte back unchanged is counted too); scheduling point = every instruction that touches libsafec's .data/.bss (page-trap + single-step); DFS over choice sequences with iterative preemption bound and state-hash pruning (dirty static pages + per-thread read history + progress); oracle: every op's return value and output bytes equal its solo run; footprint: static segment bit-identical before/after every call",
+           "rule": "lock client: each of printf_s, vprintf_s, fprintf_s, vfprintf_s fails in one thread (device full), the same entry point on the same stream in a second thread must return; watchpoint pass: every erase/fill entry point x n 1..72 x start offset 0..15 with hardware write watchpoints on the byte in front of and the byte behind the addressed range (a store that writes a neighbouring byte back unchanged is counted too); scheduling point = every instruction that touches libsafec's .data/.bss (page-trap + single-step); DFS over choice sequences with iterative preemption bound and state-hash pruning (dirty static pages + per-thread read history + progress); oracle: every op's return value and output bytes equal its solo run; footprint: static segment bit-identical before/after every call",
            "thread_sets_timed_out": len(timed_out)}
     assumptions = ["x86-64 Linux page-fault error code and trap flag semantics", "thread-private operands are really private (stack/TLS buffers of the harness)",
                    "libc functions with static state by contract are not called by the explored ops (asctime_r/ctime_r/strerror_r variants are used by the library)"]
@@ -127,6 +136,14 @@ def replay(kv, quiet=False):
     lib = vbuild.build("prod")
     env = dict(os.environ, CAT_LIB=lib, C12_TMPDIR=os.path.join(ROOT, "build", "trapvm"))
     case = kv["case"]
+    if case.startswith("client "):
+        from . import clientmatrix
+        c = case.split(); out, err = clientmatrix.build_run(os.path.join(clientmatrix.CDIR, c[1] + ".c"), c[2], c[3])
+        if out is None: print("INTERNAL-ERROR:", err); return 2
+        if not quiet: sys.stdout.write(out)
+        bad = bool(clientmatrix.wrong_lines(out))
+        if not quiet: print("VERDICT violation" if bad else "VERDICT ok")
+        return 1 if bad else 0
     if case.startswith("watch "):
         c = case.split(); ip = os.path.join(ROOT, "build", "c18", "inplace"); common.cc(ip, [os.path.join(ROOT, "engine", "c18", "inplace.c")], ["-O1", "-g", "-w", "-ldl"])
         r = subprocess.run([ip, "replay"] + c[2:], capture_output=True, text=True, env=dict(os.environ, CAT_LIB=vbuild.build(c[1]), C12_WATCH="1"))
